@@ -1,2 +1,78 @@
-(* placeholder: theorems follow *)
-Require Import UPV.Model.KindOf.
+(* C10 — Problem kind reports every feature the problem uses.
+   Only statements; each is closed by [exact] of a lemma from Proofs/KindOf_proofs.v.
+
+   [spec_features] (Model/KindOf.v, module Spec) is the independent syntactic extractor: one clause per feature of the
+   documentation table of problem kinds — typing (flat / hierarchical), fluent types (int / real / object), fluent and
+   action parameter types, numeric bounds, negative / disjunctive (Or, Implies) / equality / existential / universal
+   conditions (and interpreted functions in conditions), conditional / forall / increase / decrease / continuous
+   effects, static and non-static fluents in Boolean / numeric / object assignments and in durations (with duration
+   types and inequalities, interpreted functions in durations), timed effects and goals, processes and events, state
+   invariants and trajectory constraints, every quality metric with the action-cost and oversubscription sub-features,
+   undefined symbolic / numeric initial values.  [kind_model] mirrors Problem._kind_factory / _KindFactory (after the two
+   repairs of notes/C10.md).  ALL 56 clauses are proved (no _partial). *)
+From Coq Require Import List ZArith NArith Bool.
+Import ListNotations.
+Require Import UPV.Core.Expr UPV.Model.Kind UPV.Gen.Gen_Kind UPV.Model.KindOf UPV.Proofs.KindOf_proofs.
+
+Theorem kind_covers_features : forall P, wf P -> incl (spec_features P) (kind_model P).
+Proof. exact covers. Qed.
+Print Assumptions kind_covers_features.
+
+(* "Hence an engine whose supported kind contains the computed kind has declared support for everything in the problem" *)
+Theorem supported_kind_covers_features :
+  forall P supported, wf P -> incl (kind_model P) supported -> incl (spec_features P) supported.
+Proof. exact covers_supported. Qed.
+Print Assumptions supported_kind_covers_features.
+
+(* the two notions of "static fluent" agree on declared fluents: never written (documentation) = member of the set
+   computed by Problem._get_static_and_unused_fluents *)
+Theorem static_fluents_agree :
+  forall P f, M.declared P f = true -> M.static P f = Spec.static P f.
+Proof. exact static_agree. Qed.
+Print Assumptions static_fluents_agree.
+
+(* OperatorsExtractor / FreeVarsExtractor find exactly what a search of all sub-expressions finds *)
+Theorem extractors_complete :
+  forall e, (forall p, mentions p e = true -> exists x, p x = true /\ In (tag x) (ops_of e))
+            /\ (forall f, mentions (is_fluent_sym f) e = true <-> In f (fluents_of e)).
+Proof. exact extractors_spec. Qed.
+Print Assumptions extractors_complete.
+
+(* non-vacuity: a process whose precondition `not b(o)` is the only negation (the position the implementation missed),
+   a real fluent read by that precondition only besides a duration, a durative action with a bounded int parameter and
+   a static fluent in its duration, an object-valued assignment from a fluent, an undefined initial value *)
+Definition ex_cond (e : expr) : cexpr := {| ce := e; ce_lin := true |}.
+Definition ex_problem : problem_desc :=
+  let T := TUser 0 true in
+  {| p_fluents :=
+       [ {| fd_id := 0; fd_ty := TBool; fd_sig := [T]; fd_default := true; fd_inits := 0; fd_size := 2; fd_missing := 2 |}
+       ; {| fd_id := 1; fd_ty := TReal false false; fd_sig := []; fd_default := true; fd_inits := 0; fd_size := 1; fd_missing := 1 |}
+       ; {| fd_id := 2; fd_ty := TReal true false; fd_sig := []; fd_default := true; fd_inits := 0; fd_size := 1; fd_missing := 1 |}
+       ; {| fd_id := 3; fd_ty := T; fd_sig := []; fd_default := false; fd_inits := 0; fd_size := 1; fd_missing := 1 |}
+       ; {| fd_id := 4; fd_ty := T; fd_sig := []; fd_default := true; fd_inits := 0; fd_size := 1; fd_missing := 1 |} ];
+     p_objtys := [T; T];
+     p_actions :=
+       [ ADur {| da_params := [TInt true true];
+                 da_lo := {| de := EFluent 2 []; de_cls := CReal |}; da_hi := {| de := EFluent 2 []; de_cls := CReal |};
+                 da_conds := [];
+                 da_effs := [ ({| tm_end := true; tm_sgn := 0 |},
+                               {| ef_fl := 3; ef_args := []; ef_val := EFluent 4 []; ef_vcls := CUser; ef_tcls := CUser;
+                                  ef_cond := ex_cond (EBool true); ef_kind := KAssign; ef_forall := []; ef_rhs := [] |}) ];
+                 da_ceffs := []; da_sims := []; da_motion := false |} ];
+     p_events := [];
+     p_processes :=
+       [ {| pr_params := [];
+            pr_pre := [ex_cond (ENot (EFluent 0 [EObj 0])); ex_cond (ELt (EFluent 2 []) (EInt 5))];
+            pr_effs := [ {| ef_fl := 1; ef_args := []; ef_val := EInt 1; ef_vcls := CInt; ef_tcls := CReal;
+                            ef_cond := ex_cond (EBool true); ef_kind := KCInc; ef_forall := []; ef_rhs := [] |} ] |} ];
+     p_teffs := []; p_tgoals := []; p_goals := [ex_cond (EFluent 0 [EObj 1])]; p_traj := []; p_metrics := [];
+     p_discrete := false; p_selfoverlap := false |}.
+
+Example kind_covers_features_nonvacuous :
+  wf ex_problem
+  /\ spec_features ex_problem =
+       [ f_HIERARCHICAL_TYPING; f_REAL_FLUENTS; f_OBJECT_FLUENTS; f_BOUNDED_INT_ACTION_PARAMETERS; f_BOUNDED_TYPES
+       ; f_NEGATIVE_CONDITIONS; f_INCREASE_CONTINUOUS_EFFECTS; f_STATIC_FLUENTS_IN_OBJECT_ASSIGNMENTS
+       ; f_STATIC_FLUENTS_IN_DURATIONS; f_REAL_TYPE_DURATIONS; f_PROCESSES; f_UNDEFINED_INITIAL_SYMBOLIC ]
+  /\ incl (spec_features ex_problem) (kind_model ex_problem).
+Proof. split; [reflexivity|]. split; [vm_compute; reflexivity|]. apply kind_covers_features. reflexivity. Qed.
